@@ -29,16 +29,25 @@ func (f *flatCh) WriteUint8(v uint8) error     { f.b = append(f.b, v); return ni
 func (f *flatCh) Int8() (int8, error)          { return 0, errFlatRead }
 func (f *flatCh) WriteInt8(v int8) error       { f.b = append(f.b, byte(v)); return nil }
 func (f *flatCh) Uint16() (uint16, error)      { return 0, errFlatRead }
-func (f *flatCh) WriteUint16(v uint16) error   { f.b = binary.LittleEndian.AppendUint16(f.b, v); return nil }
-func (f *flatCh) Int16() (int16, error)        { return 0, errFlatRead }
-func (f *flatCh) WriteInt16(v int16) error     { return f.WriteUint16(uint16(v)) }
-func (f *flatCh) Uint32() (uint32, error)      { return 0, errFlatRead }
-func (f *flatCh) WriteUint32(v uint32) error   { f.b = binary.LittleEndian.AppendUint32(f.b, v); return nil }
-func (f *flatCh) Int32() (int32, error)        { return 0, errFlatRead }
-func (f *flatCh) WriteInt32(v int32) error     { return f.WriteUint32(uint32(v)) }
-func (f *flatCh) Uint64() (uint64, error)      { return 0, errFlatRead }
-func (f *flatCh) WriteUint64(v uint64) error   { f.b = binary.LittleEndian.AppendUint64(f.b, v); return nil }
-func (f *flatCh) Int64() (int64, error)        { return 0, errFlatRead }
-func (f *flatCh) WriteInt64(v int64) error     { return f.WriteUint64(uint64(v)) }
-func (f *flatCh) String(int) (string, error)   { return "", errFlatRead }
-func (f *flatCh) WriteString(s string) error   { f.b = append(f.b, s...); return nil }
+func (f *flatCh) WriteUint16(v uint16) error {
+	f.b = binary.LittleEndian.AppendUint16(f.b, v)
+	return nil
+}
+func (f *flatCh) Int16() (int16, error)    { return 0, errFlatRead }
+func (f *flatCh) WriteInt16(v int16) error { return f.WriteUint16(uint16(v)) }
+func (f *flatCh) Uint32() (uint32, error)  { return 0, errFlatRead }
+func (f *flatCh) WriteUint32(v uint32) error {
+	f.b = binary.LittleEndian.AppendUint32(f.b, v)
+	return nil
+}
+func (f *flatCh) Int32() (int32, error)    { return 0, errFlatRead }
+func (f *flatCh) WriteInt32(v int32) error { return f.WriteUint32(uint32(v)) }
+func (f *flatCh) Uint64() (uint64, error)  { return 0, errFlatRead }
+func (f *flatCh) WriteUint64(v uint64) error {
+	f.b = binary.LittleEndian.AppendUint64(f.b, v)
+	return nil
+}
+func (f *flatCh) Int64() (int64, error)      { return 0, errFlatRead }
+func (f *flatCh) WriteInt64(v int64) error   { return f.WriteUint64(uint64(v)) }
+func (f *flatCh) String(int) (string, error) { return "", errFlatRead }
+func (f *flatCh) WriteString(s string) error { f.b = append(f.b, s...); return nil }
